@@ -69,7 +69,14 @@ impl CpuMask {
     }
 
     /// The width of the mask in machine words.
-    #[cfg(any(test, folo_verif))]
+    #[cfg(test)]
+    pub(crate) fn words(&self) -> NonZero<usize> {
+        NonZero::new(self.words.len())
+            .expect("a mask is created at least one word wide and never becomes narrower")
+    }
+
+    /// Verification-only copy of the test accessor above.
+    #[cfg(all(folo_verif, not(test)))]
     pub(crate) fn words(&self) -> NonZero<usize> {
         NonZero::new(self.words.len())
             .expect("a mask is created at least one word wide and never becomes narrower")
@@ -108,7 +115,17 @@ impl CpuMask {
     /// Whether the mask contains a processor.
     ///
     /// A processor that lies beyond the width of the mask is not in the mask.
-    #[cfg(any(test, folo_verif))]
+    #[cfg(test)]
+    pub(crate) fn contains(&self, processor_id: ProcessorId) -> bool {
+        let position = BitPosition::of(processor_id);
+
+        self.words
+            .get(position.word)
+            .is_some_and(|word| word & position.bit() != EMPTY_WORD)
+    }
+
+    /// Verification-only copy of the test accessor above.
+    #[cfg(all(folo_verif, not(test)))]
     pub(crate) fn contains(&self, processor_id: ProcessorId) -> bool {
         let position = BitPosition::of(processor_id);
 
